@@ -419,6 +419,7 @@ ComponentPtr Component::clone() const
 
     c->setId(id());
     c->setName(name());
+    c->setEncapsulationId(encapsulationId());
     c->setMath(math());
 
     if (isImport()) {
